@@ -208,12 +208,12 @@ static std::string absProgram(const char *tok, long W, int slack) {
 }
 static std::vector<long> directedValues(long limit) {
   std::vector<long> v;
-  for (int k = 0; k <= 5; k++) for (long m = 1; m <= 15; m++) for (long d = -1; d <= 1; d++) { long x = m * (1L << (4 * k)) + d; if (x >= 0 && x <= limit) v.push_back(x); }
+  for (int k = 0; k <= 5; k++) for (long m = 1; m <= 15; m++) for (long d = -2; d <= 2; d++) { long x = m * (1L << (4 * k)) + d; if (x >= 0 && x <= limit) v.push_back(x); }
   return v;
 }
 
 int main(int argc, char **argv) {
-  // distances <limit>: every relative operand +-(m*16^k + {-1,0,1}) and absolute operand m*16^k + {-1,0,1} up to <limit>
+  // distances <limit>: every relative operand +-(m*16^k + {-2..2}) and absolute operand m*16^k + {-2..2} up to <limit>
   // distance <D> : the relative programs for operand D only (replay of a verifier counterexample on numNibbles/instrLen)
   if (argc >= 3 && (!strcmp(argv[1], "distances") || !strcmp(argv[1], "distance"))) {
     signal(SIGALRM, onAlarm);
